@@ -143,3 +143,95 @@ proof fn lemma_first_char_not_space(line: &str)
         assert(encode_utf8(cs)[0] == 0x20);
     }
 }
+
+/// the same for any ASCII character
+proof fn lemma_first_char_not(line: &str, c: char)
+    requires line@.len() > 0, (c as u32) < 128, !(line.spec_bytes().len() > 0 && line.spec_bytes()[0] == c as u8),
+    ensures line@[0] != c,
+{
+    let cs = line@;
+    if cs[0] == c {
+        assert(cs.take(1) =~= Seq::<char>::empty().push(c));
+        encode_utf8_push(Seq::<char>::empty(), c);
+        reveal_with_fuel(encode_utf8, 1);
+        lemma_scalar_ascii(c as u32);
+        assert(cs =~= cs.take(1) + cs.skip(1));
+        encode_utf8_concat(cs.take(1), cs.skip(1));
+        assert(encode_utf8(cs)[0] == c as u8);
+    }
+}
+
+// ---- serialize_str, block scalar path ----
+
+/// the `base` serialize_str computes: nesting level at which the header line of the block scalar sits
+spec fn block_base(s: &YamlSerializer) -> nat {
+    if s.pending_space_after_colon {
+        match s.current_map_depth { Some(d) => d as nat, None => s.depth as nat }
+    } else {
+        match s.after_dash_depth { Some(d) => d as nat, None => s.depth as nat }
+    }
+}
+
+/// fields the helpers called on the block path leave alone
+spec fn same_layout(a: &YamlSerializer, b: &YamlSerializer) -> bool {
+    a.indent_step == b.indent_step && a.folded_wrap_col == b.folded_wrap_col
+    && a.pending_anchor_id == b.pending_anchor_id && a.in_flow == b.in_flow && a.quote_all == b.quote_all && a.yaml_12 == b.yaml_12
+    && a.depth == b.depth && a.current_map_depth == b.current_map_depth && a.after_dash_depth == b.after_dash_depth
+    && a.pending_inline_comment == b.pending_inline_comment && a.pending_space_after_colon == b.pending_space_after_colon
+    && a.at_line_start == b.at_line_start
+}
+spec fn same_block_cfg(a: &YamlSerializer, b: &YamlSerializer) -> bool {
+    a.indent_step == b.indent_step && a.folded_wrap_col == b.folded_wrap_col && a.pending_str_from_auto == b.pending_str_from_auto
+    && a.pending_anchor_id == b.pending_anchor_id && a.in_flow == b.in_flow && a.quote_all == b.quote_all && a.yaml_12 == b.yaml_12
+    && a.depth == b.depth && a.current_map_depth == b.current_map_depth && a.after_dash_depth == b.after_dash_depth
+    && a.pending_inline_comment == b.pending_inline_comment && a.pending_str_style == b.pending_str_style
+}
+
+/// `v.trim_end_matches('\n')`
+#[verifier::external_body]
+fn str_trim_end_lf<'a>(s: &'a str) -> (r: &'a str)
+    ensures r@ == strip_lf(s@), trailing_lf(s@) <= s@.len(),
+{ s.trim_end_matches('\n') }
+
+/// `v.len() - content.len()` (bytes) where `content` is `v` without its trailing line feeds (one byte each)
+#[verifier::external_body]
+fn str_len_diff_trailing_lf(a: &str, b: &str) -> (r: usize)
+    requires b@ == strip_lf(a@),
+    ensures r == trailing_lf(a@),
+{ a.len() - b.len() }
+
+/// `v.contains('\n')`
+#[verifier::external_body]
+fn str_contains_lf(s: &str) -> (r: bool)
+    ensures r == (exists|i: int| 0 <= i < s@.len() && s@[i] == '\n'),
+{ s.contains('\n') }
+
+/// `v.chars().count()`
+#[verifier::external_body]
+fn str_char_count(s: &str) -> (r: usize)
+    ensures r == s@.len(),
+{ s.chars().count() }
+
+/// `str::replace(char, &str)`
+#[verifier::external_body]
+fn str_replace_char(s: &str, a: char, to: &str) -> (r: String)
+    ensures r@ == replaced1(s@, a, to@),
+{ s.replace(a, to) }
+
+/// Seam check.  The fragments `serialize_str#select` and `serialize_str#block` are consecutive statements of
+/// serialize_str (the extraction patterns make the second start where the first ends); running one after the
+/// other here makes Verus discharge the `seam:` preconditions of the second from the postconditions of the first.
+impl<'a> YamlSerializer<'a> {
+    fn serialize_str_seam(&mut self, v: &str, Ghost(pcol): Ghost<int>) -> (r: Result<(), SerError>)
+        requires
+            // assumed: the automatic mark is cleared at the end of every block scalar (and by the quoted fallback),
+            // so it is never set when serialize_str is entered
+            !old(self).pending_str_from_auto,
+            old(self).indent_step >= 1,
+            old(self).indent_step * (block_base(old(self)) + 1) <= usize::MAX && block_base(old(self)) + 1 <= usize::MAX,
+            (old(self).indent_step == 2 || block_base(old(self)) == 0) ==> pcol == old(self).indent_step * block_base(old(self)),
+    {
+        self.serialize_str_select(v);
+        self.serialize_str_block(v, Ghost(pcol))
+    }
+}
